@@ -9,7 +9,7 @@ from mc.result import Result
 
 PROPERTY = 'C20'
 LEVEL = 'exploration'
-CASE_GUARD_S = 3600  # a case is a composite (one block of expressions x all texts ...)
+CASE_GUARD_S = {'quick': 300, 'thorough': 3600}  # a case is a composite (a block of expressions x all texts, ...)
 CHUNK = 12
 RULE = ('every (phase, candidate instruction name) pair [candidates = names listed by `help instructions`, by every `help PHASE instructions`, keys of the public '
         'instruction tables, and bogus names], every suite (section, name) pair, every entity of the 8 entity types, every builtin symbol (listed <=> usable without '
